@@ -28,6 +28,8 @@ CONSTANTS
   U32R = 6
   Ticks = {4, 10}
   Clock0 = 1003
+  DelMax = 2
+  DelNewestOnly = FALSE
   MaxOps = 3
   MaxSnaps = 1
   MaxClock = 20
